@@ -34,7 +34,8 @@ def V(impl, clause, trigger, detail, case):
 payload_st = st.one_of(
     st.text(alphabet=st.sampled_from(list('ab"\\ {}[]:,0é\n') + ['\U0001f600']), max_size=8),
     st.binary(max_size=8),
-    st.sampled_from([{'k': 1}, {'k': [1, 'a', None]}, [1, 2], {'n': {'m': 1.5}}]))
+    st.sampled_from([{'k': 1}, {'k': [1, 'a', None]}, [1, 2], {'n': {'m': 1.5}},
+                     {'half': '\ud83d'}, ['\udc00', 'x']]))     # (lone surrogates: legal JSON text)
 
 
 @st.composite
